@@ -14,10 +14,10 @@ pub const MAX_DEPTH: usize = 6;
 pub const MAX_NODES: usize = 40;
 
 /// Input alphabet: 1-, 2-, 3- and 4-byte chars and the newline.
-pub const ALPHA: [char; 7] = ['a', 'B', 'c', 'é', '€', '🎈', '\n'];
+pub const ALPHA: [char; 9] = ['a', 'B', 'c', 'é', '€', '🎈', '\n', 'Ａ', '\u{feff}'];
 /// Literals additionally use the other ASCII case and a non-ASCII upper case (which
 /// `match_insensitive` must NOT fold).
-pub const LIT_ALPHA: [char; 11] = ['a', 'B', 'c', 'é', '€', '🎈', '\n', 'A', 'b', 'C', 'É'];
+pub const LIT_ALPHA: [char; 12] = ['a', 'B', 'c', 'é', '€', '🎈', '\n', 'A', 'b', 'C', 'É', 'Ａ'];
 
 pub fn gen_input(r: &mut Rng) -> String {
     let n = match r.below(20) {
@@ -206,7 +206,20 @@ impl<'a> G<'a> {
                 K::Seq(self.list(depth, min))
             }
             1 => K::Opt(Box::new(self.op(depth + 1))),
-            2 => K::Rep(Box::new(self.progress(depth + 1))),
+            2 => {
+                if self.pushes > 0 && self.r.chance(1, 5) {
+                    // a body that consumes no input but strictly shrinks the stack (`DROP*`): it ends when
+                    // the stack is empty, and `repeat` must keep applying it until then
+                    let body = match self.r.below(3) {
+                        0 => Op::new(K::StackDrop),
+                        1 => Op::new(K::Seq(vec![Op::new(K::StackDrop), Op::new(K::MatchString(String::new()))])),
+                        _ => Op::new(K::Rule(*self.r.pick(&RULES), Box::new(Op::new(K::StackDrop)))),
+                    };
+                    K::Rep(Box::new(body))
+                } else {
+                    K::Rep(Box::new(self.progress(depth + 1)))
+                }
+            }
             3 => K::Look(self.r.chance(1, 2), Box::new(self.op(depth + 1))),
             4 => K::Atomic(self.atomicity(), Box::new(self.op(depth + 1))),
             5 => K::Rule(*self.r.pick(&RULES), Box::new(self.op(depth + 1))),
@@ -336,6 +349,8 @@ pub fn repeats_are_guarded(op: &Op) -> bool {
             K::MatchString(s) | K::MatchInsens(s) => !s.is_empty(),
             K::MatchRange(..) | K::MatchCharBy(_) => true,
             K::Skip(n) => *n >= 1,
+            // shrinks the stack on every success: a repetition over it ends when the stack is empty
+            K::StackDrop | K::StackPop => true,
             K::Seq(v) | K::AndThen(v) => v.iter().any(makes_progress),
             K::OrElse(v) => v.iter().all(makes_progress),
             K::Rule(_, b) | K::Atomic(_, b) | K::Push(b) | K::RestoreOnErr(b) => makes_progress(b),
